@@ -82,7 +82,8 @@ Theorem C16_complete_partial : forall cf atoMS,
 Proof. exact complete_number. Qed.
 Print Assumptions C16_complete_partial.
 
-(** The hypothesis [avail_on_time] holds for the exact ceiling of the availability instant. *)
+(** The hypothesis [avail_on_time] holds for the exact ceiling of the availability instant
+    (what math.Ceil computes when the float64 error does not reach the next integer). *)
 Theorem C16_exact_avail_on_time : forall reps r loopMS segDur c timeline test dur chunked atoMS,
   wf r loopMS -> startNr c = 0 -> ato c = Some atoMS -> 0 <= atoMS ->
   avail_on_time {| sc_reps := reps; sc_ref := r; sc_loopMS := loopMS; sc_segDurMS := segDur; sc_cfg := c;
@@ -91,29 +92,60 @@ Theorem C16_exact_avail_on_time : forall reps r loopMS segDur c timeline test du
 Proof. exact exact_on_time. Qed.
 Print Assumptions C16_exact_avail_on_time.
 
-(** ... and fails for the code's float64 computation: a 2.002 s segment (end 60060 at timescale
-    30000) gets 2001 ms, where the segment server still answers "too early" (1 ms). *)
-Theorem C16_truncation_refuted :
-  availMS_float rep2002 2002 cfg0 0 = Ok 2001 /\
+(** The code's float64 computation [int64(math.Ceil((E/ts - ato)*1000))] is on time (not before
+    the segment is available, less than 1 ms after) — bounded statement, the bound is part of it:
+    on the segment grids of the bundled assets' reference representations, for streams started at
+    the epoch or in September 2025, availability time offsets 0, 1 and 1.5 s, for the first 2500
+    segments.  The unbounded statement needs the float64 error analysis (a Flocq bridge) and is
+    the hypothesis [avail_on_time] of [C16_complete_partial]; the correspondence samples it on
+    every run (oracle key avail:*). *)
+Theorem C16_ceil_on_time_bounded : forall dur tsc startS atoMS n,
+  In (dur, tsc) bundled_grids -> In startS [0; 1758000000] -> In atoMS [0; 1000; 1500] ->
+  0 <= n < 2500 ->
+  on_time_b RCeil ((n + 1) * dur + startS * tsc) tsc atoMS = true.
+Proof. exact ceil_on_time_bounded. Qed.
+Print Assumptions C16_ceil_on_time_bounded.
+
+(** The 2.002 s segment that the former truncation asked for at 2001 ms is now asked for at 2002 ms
+    and served. *)
+Theorem C16_truncation_fixed :
+  availMS_float rep2002 2002 cfg0 0 = Ok 2002 /\
+  exists m, lookup rep2002 2002 cfg0 ByNumber 0 2002 = TOk m.
+Proof. exact avail_ceil_witness. Qed.
+
+(** What fix f4e8dbe repaired (statement about the former rounding [RTrunc], which the model keeps
+    so that a revert is recognised): 2001 ms, where the segment server answers "too early" (1 ms),
+    and the session on the 29.97 fps table lost number 7. *)
+Theorem C16_truncation_refuted_before_fix :
+  availMS_float_r RTrunc rep2002 2002 cfg0 0 = Ok 2001 /\
   availMS_exact rep2002 2002 cfg0 0 = Ok 2002 /\
   lookup rep2002 2002 cfg0 ByNumber 0 2001 = TTooEarly 1.
 Proof. exact avail_truncation_witness. Qed.
-Print Assumptions C16_truncation_refuted.
 
-(** The consequence for a session (segment table of the bundled 29.97 fps asset, testNowMS 10000,
-    five triggers): number 7 is asked for at 16015 ms and not delivered; 4,5,6,8 are. *)
-Theorem C16_gap_refuted :
-  let '(_, gs, st) := session (cf2997 false cfg0) 10000 [] [trig; trig; trig; trig; trig] in
+Theorem C16_gap_refuted_before_fix :
+  let cf := mk_scfg_r RTrunc [ {| ir_kind := RVideo; ir_tab := Some rep2997 |} ] rep2997 8008 2002 cfg0 false true None false in
+  let '(_, gs, st) := session cf 10000 [] [trig; trig; trig; trig; trig] in
   map (map (fun m => (mp_nr m, mp_now m, mp_ok m))) gs =
     [[(4, 10010, true)]; [(5, 12012, true)]; [(6, 14014, true)]; [(7, 16015, false)]; [(8, 18018, true)]]
   /\ ph st = PRunning.
-Proof. exact gap_witness. Qed.
+Proof. exact gap_witness_before_fix. Qed.
 
-(** With chunked transfer the rejected request ends the process. *)
+(** The same session with the current code (segment table of the bundled 29.97 fps asset,
+    testNowMS 10000, five triggers): all of 4..8 are delivered. *)
+Theorem C16_gap_closed :
+  let '(_, gs, st) := session (cf2997 false cfg0) 10000 [] [trig; trig; trig; trig; trig] in
+  map (map (fun m => (mp_nr m, mp_now m, mp_ok m))) gs =
+    [[(4, 10010, true)]; [(5, 12012, true)]; [(6, 14014, true)]; [(7, 16016, true)]; [(8, 18018, true)]]
+  /\ ph st = PRunning.
+Proof. exact gap_closed. Qed.
+
+(** With chunked transfer a request that writeSegment rejects ends the process; still reachable:
+    a session created before the first segment is complete asks for number -1. *)
 Theorem C16_chunked_crash_refuted :
   let c := {| startS := 0; startNr := 0; tsbdS := 60; ato := Some 1000 |} in
-  let '(_, gs, st) := session (cf2997 true c) 15000 [] [trig; trig] in
-  map (map (fun m => (mp_nr m, mp_now m, mp_ok m))) gs = [[(7, 15015, false)]] /\
+  let cf := mk_scfg [ {| ir_kind := RVideo; ir_tab := Some rep2s |} ] rep2s 8000 2000 c false true None true in
+  let '(_, gs, st) := session cf 500 [] [trig; trig] in
+  map (map (fun m => (mp_nr m, mp_ok m))) gs = [[(-1, false)]] /\
   ph st = PCrashed "startReadAndSendChunked: send on closed channel".
 Proof. exact chunked_crash_witness. Qed.
 
